@@ -12,639 +12,801 @@ Definition show_fres (r : fres) : string :=
   end.
 Definition check (rs : list rune) : string := digest (show_fres (format_res rs)).
 Definition full (rs : list rune) : string := show_fres (format_res rs).
-Eval vm_compute in ("<<<M1688>>>" ++ check (runes_of_ascii "  packet body
-{
-
-@tag(
-    3
-
-    )	i16 options1 
-,  repeat  string body	, 
-@calculatedFrom(	// trailing space 
-	""a\""b"" ) 
-x_y_z@calculatedFrom(	""a\\""
-)
-`it's`
-    ,match
-
-    o
-
-as
-    BodyLength { 00 :
-
-    pack
-, 1
-
-:  u	, [
-255
+Eval vm_compute in ("<<<M41>>>" ++ check (runes_of_ascii "  root packet u{ match crc as
+leftPad { [ 00 ] : //
+o,  42
+    /// triple
+    :
+// trailing space 
+//x
+crc [
+""a	b"" ,
+""CRC32"" , ""a\""b"" , ""\n""
+, 0
+, 255 ] : // packet A { u8 x, }
+zchar ,
+// " ++ [128512]%N ++ runes_of_ascii " emoji
+//
+} //	t
+,	string stringy
+    @lengthOf(matchKey ),
+    int ,@tag(
+1)repeat	zchar[ 4294967296] roots , @leftPad ( '\x00'	) x
+    //x
+    @lengthOf( crc ), } packet// c
+repeatCount { zchar[ 255]	f32a	@calculatedFrom(
+    ""x y"" )
+,@tag(
+    255) char[] asx
+@calculatedFrom(""" ++ [28040; 24687]%N ++ runes_of_ascii """
+    // " ++ [27880; 37322]%N ++ runes_of_ascii "
+    ) , leftPad{
+/// triple
+// a // b
+repeat int u8x ,
+i64
+trueish	@lengthOf(	i8i8 ) `" ++ [28040; 24687; 31867; 22411]%N ++ runes_of_ascii "`
+    // a // b
     ,
-    255,
-""// no comment"" 
-]
+repeat
+int64 //	t
+pack
+    , } ,
+    match float as o { //
+65535
+:
+Pad ,[
+""" ++ [128512]%N ++ runes_of_ascii """ , """ ++ [28040; 24687]%N ++ runes_of_ascii """,
+    0123456789 ]
+//x
+// @lengthOf(
+:i8i8
+, 7 :
+asx 00: stringy } ,@calculatedFrom(
+""" ++ [233]%N ++ runes_of_ascii "t" ++ [233]%N ++ runes_of_ascii """ ) f32a
+// packet A { u8 x, }
+// trailing space 
+u , repeat msg_type `" ++ [233]%N ++ runes_of_ascii "` ,
+repeat zchar[
+42 ]crc
+    , uint64
+    // " ++ [27880; 37322]%N ++ runes_of_ascii "
+    lengthOf , repeat As``
+    ,
+zchar[ 007 ] tag `tab	here`  , }	root packet charz
+{
+    string msg_type , @calculatedFrom( """") repeat//	t
+string  tag `tab	here`
+    ,repeat calculatedFrom ,
+repeat Foo, uint64
+Foo@lengthOf( packetx) ,
+@rightPad  ( )	match	falsey as calculatedFrom { [ 0 , 10
+    , ""a\""b"" ] : metadata ,
+} , @calculatedFrom( ""\" ++ [233]%N ++ runes_of_ascii """ )
+    i64  As ``,
+    @lengthOf(
+rootA) u32 Logon // c
+@lengthOf(a1  ) , @calculatedFrom( """" ) @leftPad ( ' '
+    )
+    uint16
+i8i8
+@calculatedFrom( ""// no comment""
+) ,  } root packet// trailing space 
+uint8x {
+    repeat f32
+chars `tab	here` ,}
+MetaData calculatedFrom
+{
+//
+// `tick` ""quote"" 'q'
+metadata crc , }
 
-    : Packet[
+")).
+Eval vm_compute in ("<<<M1710>>>" ++ check (runes_of_ascii "// top
+		options 
+        // c0
 
-    65535
-]:	i64_	, 
+  {
+	LittleEndian 
+	    // c2
+=	false
+        // c4
+    ; 
+    // c5
+	StringPrefixLenType
+// c6
+	=  
+  // c7
+  u8 
+// c8
+  ;  // c9
+ArrayPrefixLenType// c10
+  	= 	 // c11a
+	// c11b
+	u64 
+    // c12
+    	; 	 // c13a
+  // c13b
+		FixedStringPadFromLeft
+	    // c14
+    	=	false;
+	// c17
+  FixedStringPadChar  // c18a
+
+	// c18b
+  = 
+  // c19
+
+	' '  // c20a
+
+// c20b
+  ; 
 } 
 
-// @lengthOf(
-//
-	, 	 // a // b
-@calculatedFrom(// c
-""" ++ [233]%N ++ runes_of_ascii "t" ++ [233]%N ++ runes_of_ascii """
-) string 	 // `tick` ""quote"" 'q'
-  len `tab	here` 
-, @tag(
-0123456789
-    )	repeat 
-  //	t
-	  matchKey  A
+// c22
+  packet
+    // c23
 
-    `a\`
-    ,
-i8i8 Packet
-    ,
-stringy
-@calculatedFrom(
-""x y""
+Reject // c24a
+// c24b
+{ 	 // c25a
 
-    )	, 
-f32a 
-As
+	// c25b
+    repeat char[ 
+4  ] 	 // c29a
 
-    `crlf
-line`
-	,
-u128 { repeat	int
-    { 
-repeat
+	// c29b
+    seqNo // c30
+  	, 	 // c31
+		string // c32
 
-zchar[ 255
-	] a1 `{ , }`	, 
-// a // b
-	  // a // b
+Px
 
-  match calculatedFrom as body 	 //	t
-	{
-0// " ++ [27880; 37322]%N ++ runes_of_ascii "
-  :body 42
-    // c
+// c33
+    	,
 
-:
-
-    tag // @lengthOf(
-	,""1""
-
-: packetx, ""it's""
-    :roots, }  ,
-
-i32
-
-u  @calculatedFrom(// " ++ [128512]%N ++ runes_of_ascii " emoji
-    ""a\\""
-	) 
-,
-
-} ,string_ `crlf
-line`
-    , 
-_x,
-
-    repeat lengthOf
-	crc  , 
-}
-	,	// " ++ [27880; 37322]%N ++ runes_of_ascii "
-} MetaData
-rootA {
-uint8 
-tag
-
-,string	Z9_
-
-`u8 x,`
-
-    ,f64
-
-float
-,
-Logon
-
-    falsey`a\`	,
-}
-    packet 
-len  {	char[] 
-u`// not a comment`
-
-,
-	char[]  Header
-
-    `// not a comment`  ,
-	string
-charz
-
-    // a // b
-
-/// triple
-`tab	here`, 
-
-    //
-
-	@leftPad 
-    // packet A { u8 x, }
-
-(
-
-)
-    @lengthOf(	a1
-	)  
-      // " ++ [128512]%N ++ runes_of_ascii " emoji
-	//x
-
-len	crc
-    ,@leftPad
-( ' ' 
-) Packet  @calculatedFrom(""" ++ [128512]%N ++ runes_of_ascii """ )
-,repeat uint8
-	a1
-, match
-T as As 
-{
-    ""packet""
-
-:
-	Logon
-    ,
-    [
-
-""" ++ [128512]%N ++ runes_of_ascii """  ,	0]  : 
-i64_  ,[  ""packet"" ,7
-    ]	:
-
-    string_
-,
-	}, repeat	//
-
-	zchar[007
-]
-zchar `{ , }` ,
-} ")).
-Eval vm_compute in ("<<<M43>>>" ++ check (runes_of_ascii "packet asx {
-    leftPad@calculatedFrom( """ ++ [233]%N ++ runes_of_ascii "t" ++ [233]%N ++ runes_of_ascii """ ) , @leftPad
-(  '0')
-    // trailing space 
-    u8x As `crlf
-line` ,char[ 3 ] asx @calculatedFrom( ""{,}"" )  ,
-// @lengthOf(
-// trailing space 
-repeat u128  { int {packetx @calculatedFrom( ""packet"" )
-    ,	match
-T as  T
-{ ""a	b""
-: o , } , zchar[ 00
-    ]lengthOf
-`{ , }` ,
-/// triple
-// trailing space 
-char[] crc @calculatedFrom( ""abc"" )
-, } , Header	@calculatedFrom( """ ++ [233]%N ++ runes_of_ascii "t" ++ [233]%N ++ runes_of_ascii """ )
-`two words` ,
-repeat uint8 uint8x , repeat
-    //
-    char[0123456789 ]float`u8 x,`,} ,
-packetx x `say ""hi""` , @rightPad ( )
-i8i8
-    @calculatedFrom( ""x y""), @leftPad
-    ( ) BodyLength {repeat	int32
-_x ``  , i8 msg_type
-`doc` //
-, }, }
-// `tick` ""quote"" 'q'
-// packet A { u8 x, }
-packet body { }	packet	repeatCount{zchar[  3 ] Packet, @lengthOf( // @lengthOf(
-Header  )
-    i64
-// c
-// c
-Packet `two words` ,
-zchar[ 65535
-]calculatedFrom `tab	here`//	t
-, match x as leftPad
-    { ""// no comment"": rootA
-    , ""`tick`"" :
-o,
-}
-,// " ++ [128512]%N ++ runes_of_ascii " emoji
-zchar[ //	t
-3 ]
-// packet A { u8 x, }
-// " ++ [27880; 37322]%N ++ runes_of_ascii "
-u128 @calculatedFrom( ""{,}"" ) `{ , }`
-    ,
-}
-    //	t
-    options { u = char[ 42 ] // " ++ [27880; 37322]%N ++ runes_of_ascii "
-metadata
-=""a\\""
-;  Logon =
-string ; Z9_ = u16
-;  }
-")).
-Eval vm_compute in ("<<<M1868>>>" ++ check (runes_of_ascii "options {
-    FixedStringPadFromLeft = true;
-    FixedStringPadChar = '0';
-}
-
-packet Leg {
-    InPrice0 {
-        repeat string clOrdID,
-        int16 msgKind,
-        zchar[5] Px,
-    },
-    i16 f1,
-    repeat f64 Side2,
-    string Acct,
-}
-
-packet Cancel {
-    zchar[4] clOrdID,
-    string seqNo,
-    Leg,
-    @leftPad('0')
-    char[11] OrderId,
-}
-
-packet Quote {
-    repeat char[4] sym,
-    f64 OrderId,
-    repeat Leg,
-    repeat i64 f1,
-    int16 Note,
-    zchar[3] count,
-}
-
-root packet Ack {
-    @leftPad(' ')
-    char[10] sym,
-    InPx60 {
-        Cancel,
-        repeat char[1] f1,
-        string Tail,
-        repeat InNote55 {
-            int8 count,
-            f64 f1,
-            repeat Cancel,
-        },
-        char[] tag7,
-        repeat string msgKind,
-    },
-    u8 lastPx,
-    match lastPx as Body {
-        152 : Quote,
-        173 : Cancel,
-        4 : Leg,
-    },
-    u16 Ref @calculatedFrom(""CRC32""),
-}")).
-Eval vm_compute in ("<<<M1486>>>" ++ check (runes_of_ascii "options {
-    FixedStringPadFromLeft = true;
-    FixedStringPadChar = '0';
-}
-
-packet Leg {
-    repeat InSym93 {
-        zchar[3] Acct,
-        string Side2,
-        i32 Flags,
-        f32 Note,
-        i32 msgKind,
-    },
-    f64 Note,
-    uint16 Px,
-}
-
-packet Quote {
-    zchar[2] OrderId,
-}
-
-packet Ack {
-    repeat string lastPx,
-    zchar[4] price,
-    uint32 OrderId,
-    Quote,
-    int8 Acct,
-}
-
-packet Fill {
-    repeat Leg,
-    @rightPad('0')
-    char[11] Note,
-    f64 Px,
-    @rightPad('\x00')
-    char[5] Flags,
-    zchar[9] x,
-    string msgKind,
-}
-
-root packet Order {
-    Leg,
-    repeat Ack,
-    @rightPad('\x00')
-    char[3] Side2,
-    repeat char[1] seqNo,
-    u16 clOrdID,
-    match clOrdID as Body {
-        198 : Leg,
-        23 : Quote,
-        13 : Ack,
-        159 : Fill,
-    },
-    u32 venue @calculatedFrom(""CR\
-    C32""),
-}")).
-Eval vm_compute in ("<<<M230>>>" ++ check (runes_of_ascii "packet rootA{	match
-zchar as
-    // " ++ [128512]%N ++ runes_of_ascii " emoji
-    int {
-    [ ""it's""
-, ""1""]
-    :// c
-tag ,
-    } , char Packet @lengthOf( body ) , metadata @lengthOf( packetx ) ,@calculatedFrom( """ ++ [128512]%N ++ runes_of_ascii """	)match
-    repeatCount as f32a { """ ++ [28040; 24687]%N ++ runes_of_ascii """
-    :chars ,
-    }
-    ,@lengthOf(string_ )char[ 0
-    //
-    ] len @calculatedFrom(
-""abc"" )
-,
-    // `tick` ""quote"" 'q'
-    u8 uint8x@lengthOf( roots)  `say ""hi""`
-, int @calculatedFrom( ""a\""b"") ,match
-msg_type as i8i8 {// c
-""\" ++ [233]%N ++ runes_of_ascii """
-// " ++ [27880; 37322]%N ++ runes_of_ascii "
-// packet A { u8 x, }
-: Header , 1 : zchar,
-    [ ""\n""	]
-:	string_
-""\n"" :i8i8 0123456789 : Logon
-    [ 00 , 007 ,""1"" ,
-    //	t
-    ""it's""
-    , ""// no comment""
-    ,
-    0
-, ""a\\"" ,// packet A { u8 x, }
-007 ]
-    :BodyLength}
-, match rootA as // c
-chars  {
-7
-:
-    // @lengthOf(
-    Header }
-, A Foo `tab	here` ,
-}
-")).
-Eval vm_compute in ("<<<M1795>>>" ++ check (runes_of_ascii "packet options1 {
-    @leftPad('0')
-    @rightPad('\x00')
-    @tag(255)
-    /// triple
-    repeat string As `
-        `,
-    @calculatedFrom("""")
-    @calculatedFrom(""x y"")
-    a1 {
-        Foo {
-            trueish {
-                tag @lengthOf(i8i8) `doc`,
-            },
-            zchar[00] f32a @lengthOf(calculatedFrom),
-            repeat zchar[1] stringy `{ , }`,
-        },
-        uint64 repeatCount @lengthOf(asx),
-        char[42] lengthOf @calculatedFrom(""packet""),
-        char[10] calculatedFrom @lengthOf(BodyLength),
-    },
-    asx `// not a comment`,
-}
-
-options {
-    matchKey = """ ++ [128512]%N ++ runes_of_ascii """
-    falsey = ""a\""b"";
-    A = ""CRC32""
-    msg_type = """ ++ [233]%N ++ runes_of_ascii "t" ++ [233]%N ++ runes_of_ascii """;
-}
-
-MetaData o {
-}
-
-packet Pad {
-}")).
-Eval vm_compute in ("<<<M227>>>" ++ check (runes_of_ascii "packet	crc
-    { @lengthOf(Header )	repeat roots
-    // @lengthOf(
-    `a\` ,
-@lengthOf( tag ) match x as string_{ [ ""a\\"" , ""packet""
-] : Header""// no comment""
-    /// triple
-    :
-Logon , 7:
-falsey ,7  : metadata [ 7  , 00] :
-    // `tick` ""quote"" 'q'
-    repeatCount 3 : u ,
-},
-    //	t
-    @lengthOf( u128
-//
-// " ++ [27880; 37322]%N ++ runes_of_ascii "
-) @rightPad
-(
-'\x00' // c
-)
-char[] int ,int16 Packet @lengthOf(  string_
-    ) , trueish{ repeat
-crc {zchar
-calculatedFrom , } ,
-} ,
-// @lengthOf(
-//x
-@rightPad
-( ) repeat
-    _x pack // " ++ [27880; 37322]%N ++ runes_of_ascii "
-, @lengthOf(
-// c
-// trailing space 
-chars)repeat
-    string_ {repeat
-    uint8x`// not a comment`,}
-, }")).
-Eval vm_compute in ("<<<M1553>>>" ++ check (runes_of_ascii "options {
-    StringPrefixLenType = u8;
-    ArrayPrefixLenType = u8;
-    FixedStringPadFromLeft = false;
-    FixedStringPadChar = ' ';
-}
-
-packet Ack {
-    char[] tag7,
-}
-
-packet Reject {
-    InSym61 {
-        repeat Ack,
-        zchar[4] f1,
-    },
-}
-
-packet Logout {
-    char[4] clOrdID,
-}
-
-root packet Cancel {
-    @leftPad(' ')
-    char[10] price,
-    u8 x,
-    u32 venue @lengthOf(Body),
-    match x as Body {
-        [92, 175] : Logout,
-        26 : Reject,
-        144 : Ack,
-    },
-    u16 count @calculatedFrom(""CR\
-        C32""),
-}")).
-Eval vm_compute in ("<<<M1907>>>" ++ check (runes_of_ascii "
+// c34
+  }
+root
 packet
-T	// c
-	  {@tag( 00	)
 
-repeat
-    char[]
-    charz
+Trade 	 // c38a
+    // c38b
+	{ 	 // c39a
 
-    `
-`
+// c39b
 
-, char[
-    0123456789
-] BodyLength @lengthOf(//x
+@rightPad 
+( // c41
+    '0'  // c42
 
-Z9_
-)`u8 x,`
+) 
+        // c43
+	char[
+        // c44
+	2 	 // c45
+    ]
+	msgKind// c47
 
-    , }
+	,	// c48
+    repeat
+	// c49
+f64
+        // c50
 
-MetaData
-    crc
+	price 	 // c51a
+	// c51b
+, InAcct79 
+    // c53
+  { 
+    // c54
 
-    {
-    float64  int `" ++ [28040; 24687; 31867; 22411]%N ++ runes_of_ascii "` // a // b
+  repeat	// c55a
+
+  // c55b
+
+	Reject 
+        // c56
+	, 
+// c57
+zchar[	// c58a
+
+// c58b
+  	7  // c59
+
+] 	 // c60a
+  	// c60b
+
+OrderId
+
+    // c61
+
+,
+// c62
+		}	// c63
+    ,// c64
+  Reject  // c65a
+
+// c65b
+	,// c66
+
+}
+
+")).
+Eval vm_compute in ("<<<M1570>>>" ++ check (runes_of_ascii "root packet repeatCount {
+    @lengthOf(u8x)
+    @calculatedFrom(""1"")
+    @tag(007)
+    repeat zchar[42] Header `" ++ [28040; 24687; 31867; 22411]%N ++ runes_of_ascii "`,
+    match options1 as asx {
+        255 : roots,
+    },// a // b
+    Header @lengthOf(options1) ``,
+    Header @lengthOf(len) `{ , }`,
+    o matchKey `u8 x,`,
+}
+
+packet packetx {
+    zchar[255] crc,
+}
+
+packet Logon {
+    body {
+        float {
+            repeat Logon trueish,
+        },
+    },
+    @calculatedFrom(""`tick`"")
+    repeat char[0] f32a,
+    match body as float {
+        [65535, """ ++ [28040; 24687]%N ++ runes_of_ascii """] : calculatedFrom,
+    },
+    u32 float @calculatedFrom(""" ++ [233]%N ++ runes_of_ascii "t" ++ [233]%N ++ runes_of_ascii """),
+    string body @lengthOf(len) `
+        `,
+    u8x @calculatedFrom(""a\""b""),//	t
+    float64 options1 @calculatedFrom(""" ++ [128512]%N ++ runes_of_ascii """) `it's`,
+    //x
+    // trailing space 
+    match crc as chars {
+        3 : options1,
+        [10] : _x,
+        [""{,}""] : options1,
+        [
+            7, ""CRC32"", ""a\\"",
+            ""a\\"", ""packet""
+        ] : As,
+    },
+    i16 msg_type,
+}")).
+Eval vm_compute in ("<<<M1380>>>" ++ check (runes_of_ascii "
+
+  options 
+{
+	FixedStringPadFromLeft	= true  ;
+FixedStringPadChar 
+='0' ; 
+} 
+packet
+Leg
+
+    {repeat	InSym93
+    {zchar[  3
+] Acct
+
     ,
-	As
+string
+	Side2,i32 Flags
+    ,
+f32  Note,
+	i32
+msgKind	,
+	} ,	f64 
+Note,  uint16 Px  , }
+packet Quote{
+	zchar[ 2 ]OrderId
+    ,
+}packet Ack
+	{ repeat	string	lastPx
+,zchar[ 4  ] 
+price
+	,
 
-    Logon
-    ``
-, // `tick` ""quote"" 'q'
+uint32
+OrderId
+    ,
 
-  uint8  // " ++ [27880; 37322]%N ++ runes_of_ascii "
-      u
-    , u32
-stringy
-`
-`,
-    // a // b
-//	t
+    Quote
 
-  uint64	uint8x	,
-asx
-calculatedFrom
-    , //x
+, int8 Acct
+,
+    }	packet Fill	{
+
+    repeat
+Leg	, @rightPad
+
+    ('0' )char[11	] Note,f64
+    Px
+
+, @rightPad	( '\x00'
+    )
+char[
+
+    5
+	] Flags ,
+zchar[
+
+    9
+
+    ] x ,
+string msgKind,} 
+root	packet
+
+Order
+	{
+	Leg
+, repeat
+Ack
+,@rightPad	('\x00'
+
+) 
+char[
+	3 ]
+
+Side2 ,
+    repeat 
+char[	1	]	seqNo ,	u16
+
+    clOrdID, match
+clOrdID as Body  {
+198  :Leg
+
+    , 
+23	:
+    Quote, 13
+
+    :Ack ,159 :
+    Fill ,
+
+    } 
+, u32  venue
+@calculatedFrom(
+	""CRC32""
+
+    ) ,}
+")).
+Eval vm_compute in ("<<<M1734>>>" ++ check (runes_of_ascii "
+// a // b
+	packet
+	u128 
+{repeat chars
+{  i64 u8x	`
+`  // a // b
+  	,  // c
+_x@lengthOf( falsey
+    )
+,  Logon `" ++ [28040; 24687; 31867; 22411]%N ++ runes_of_ascii "`
+
+,
+
+repeat char[]
+    trueish`tab	here`  , 
+} ,}
+
+    root packet T
+
+    { 
+match
+Packet
+    as
+trueish
+
+{
+""packet""	:
+	charz,[
+4294967296
+,  ""1""	]
+:
+
+    A
+	,
+    7  :
+
+    x
+    // " ++ [27880; 37322]%N ++ runes_of_ascii "
+      , 
+[  
+  // a // b
+7	,
+    ""a	b""
+
+]:	u128 255 : As 
+3	:Packet
+,} ,
+        //	t
+		// trailing space 
+
+	pack
+
+    `a\`  , @calculatedFrom(
+
+    """ ++ [233]%N ++ runes_of_ascii "t" ++ [233]%N ++ runes_of_ascii """ 	 //	t
+	)
+	rootA  matchKey
+
+    ,
+
+char[
+
+65535
+	]/// triple
+  leftPad  @lengthOf( 
+roots
+
+//
+  	),
+	repeat
+
+MetaDataX  { 
+u64
+
+    a1 
+@calculatedFrom( 
+""x y"") `doc` 
+, 	 //	t
+  uint8
+
+    falsey ,
+match 
+BodyLength
+    as A {	[ ""\" ++ [233]%N ++ runes_of_ascii """  ,255 
+, """",  ""it's""
+]:  Foo
+
+, 3
+
+    :  u128 }, }  , }")).
+Eval vm_compute in ("<<<M1911>>>" ++ check (runes_of_ascii "  // top
+
+	packet// c0a
+
+// c0b
+	A	// c1
+	{
+        // c2
+u8 
+
+    // c3
+    a // c4a
+
+// c4b
+  ,
+    }	// c6a
+  // c6b
+	packet	// c7a
+// c7b
+	B  // c8a
+  	// c8b
+
+{ 
+u16 // c10
+b 	 // c11a
+  // c11b
+    , 
+// c12
 
 	}
+	    // c13
+  	root	// c14
+packet
+	P // c16
+    	{	// c17a
+    	// c17b
+      u8
 
-MetaData chars {
+K1	// c19
+    	,// c20
+  u8  // c21a
+  // c21b
+      K2 	 // c22a
 
-    char[1 
+  // c22b
+  ,  // c23a
+    // c23b
+    match// c24a
+    	// c24b
+  K1
+as
 
-// `tick` ""quote"" 'q'
-	] //	t
-    chars
-, } 	 // trailing space 
-")).
-Eval vm_compute in ("<<<M335>>>" ++ check (runes_of_ascii "//	t
-packet u8x  {
-u8x { body
-@calculatedFrom(	""`tick`"") `say ""hi""`
-,match a1	as
-    asx // c
-{
-    //	t
-    0
-    :
-// " ++ [27880; 37322]%N ++ runes_of_ascii "
-// @lengthOf(
-asx }
-    ,}
-, @rightPad ( )
-    match Logon as	x { [
-    00 , ""// no comment"" , ""a\\"",0123456789
-    // trailing space 
-    ,
-    4294967296 ] : crc , 00:options1 , // " ++ [27880; 37322]%N ++ runes_of_ascii "
-42
-    :i8i8,0 : o 0123456789
-: body , } ,@tag(
-7 )float
-    @lengthOf(
-stringy) `" ++ [233]%N ++ runes_of_ascii "`,
-u
-    // c
-    @lengthOf( msg_type )
-,
-    }")).
-Eval vm_compute in ("<<<M1236>>>" ++ check (runes_of_ascii "// top
-options // c0a
-  // c0b
-{ f32a
-    // c2
+    // c26
+M1// c27a
+// c27b
+    	{// c28a
+		// c28b
+1  
+      // c29
+  :
+    // c30
+	A// c31
+    ,// c32a
+	// c32b
+	} ,
+match 
+K2  
+  // c36
+	as
+    // c37
+  M2// c38
+	{
+    1 
+: 	 // c41a
+// c41b
+	B 
+
+    // c42
+
+	, }, 
+
+    // c45
+	}// c46")).
+Eval vm_compute in ("<<<M1122>>>" ++ check (runes_of_ascii "// top
+options // c0
+{ // c1
+uint8x // c2
 = // c3
-0 } // c5
-packet trueish // c7a
-  // c7b
-{ // c8
-}
-    // c9
-MetaData _x // c11
-{ char[ // c13a
-  // c13b
-0123456789 // c14
-] // c15a
-  // c15b
-zchar
-    // c16
-, // c17a
-  // c17b
-string // c18
-crc ,
-    // c20
-char[
-    // c21
-1 ] // c23a
-  // c23b
-options1
-    // c24
-, uint8 // c26a
-  // c26b
-repeatCount
-    // c27
-, // c28
-} // c29
+007 // c4
+; // c5
+lengthOf // c6
+= // c7
+i8 // c8
+; // c9
+} // c10
+packet // c11
+i64_ // c12
+{ // c13
+@calculatedFrom( // c14
+""1"" // c15
+) // c16
+@tag( // c17
+3 // c18
+) // c19
+@lengthOf( // c20
+rootA // c21
+) // c22
+repeat // c23
+int8 // c24
+Packet // c25
+`u8 x,` // c26
+, // c27
+} // c28
+root // c29
+packet // c30
+stringy // c31
+{ // c32
+@rightPad // c33
+( // c34
+' ' // c35
+) // c36
+repeat // c37
+char[ // c38
+10 // c39
+] // c40
+repeatCount // c41
+, // c42
+@tag( // c43
+255 // c44
+) // c45
+float64 // c46
+msg_type // c47
+@calculatedFrom( // c48
+""packet"" // c49
+) // c50
+, // c51
+} // c52
 ")).
-Eval vm_compute in ("<<<M1538>>>" ++ check (runes_of_ascii "// packet A { u8 x, }
+Eval vm_compute in ("<<<M1447>>>" ++ check (runes_of_ascii "packet
+leftPad //
+
+{
+	@rightPad()repeat
+
+chars  {
+
+    crc /// triple
+	pack ,
+} 
+,	@calculatedFrom( """ ++ [28040; 24687]%N ++ runes_of_ascii """
+    )@lengthOf(  options1 )  @tag(	65535)
+    Foo
+
+    ,
+match
+
+    matchKey as// " ++ [128512]%N ++ runes_of_ascii " emoji
+
+tag{
+// c
+		[""{,}""
+
+    ,	""""
+    , ""`tick`"" ,3,  ""it's""
+
+    ,  """ ++ [128512]%N ++ runes_of_ascii """
+
+, ""it's"" ] 
+:
+
+    As
+	,[
+        /// triple
+	//	t
+
+""x y""	]  
+  //x
+  : chars
+
+    ,
+
+""" ++ [233]%N ++ runes_of_ascii "t" ++ [233]%N ++ runes_of_ascii """:
+
+    uint8x
+    ,
+
+    4294967296 :	packetx ""// no comment""
+:calculatedFrom, }
+    ,@calculatedFrom( 
+""// no comment"" // @lengthOf(
+
+) char[  // trailing space 
+    007 ]f32a ,
+    }  // a // b
+")).
+Eval vm_compute in ("<<<M1399>>>" ++ check (runes_of_ascii "  MetaData  u128
+	{// a // b
+		string zchar 	 //x
+`two words`
+,
+    u16
+
+packetx`a\`  ,  char[ 1]
+
+    Logon
+
+, len
+crc ,
+
+char[7
+
+] i8i8
+
+,
+	char[]
+    calculatedFrom
+	,
+} // @lengthOf(
+  MetaData  u	{
+    u// " ++ [128512]%N ++ runes_of_ascii " emoji
+  u128
+
+    ,  //	t
+      } 
+root packet
+    metadata
+{ }
+	options {
+matchKey
+=
+
+    255
+    ;x_y_z = 
+007
+
+    crc
+= 
+int16	;
+
+zchar = 	 // c
+	char[ 42] ;int=
+true;}
+    options
+    {Header =
+""" ++ [128512]%N ++ runes_of_ascii """
+;
+
+    len = ' ';	matchKey
+=
+	"""";
+MetaDataX=' '
+
+;  o 
+=
+'\x00'
+;
+	}  
+  /// triple
+")).
+Eval vm_compute in ("<<<M133>>>" ++ check (runes_of_ascii "MetaData  falsey
+{ } root packet // `tick` ""quote"" 'q'
+o {@tag(3// " ++ [128512]%N ++ runes_of_ascii " emoji
+) @calculatedFrom( """") @lengthOf(
+    pack)char[ 65535
+    ]falsey
+    @lengthOf(falsey ) , }  root packet roots
+    {@lengthOf(
+chars )match Logon as chars{ ""`tick`"" :charz
+    // packet A { u8 x, }
+    ""a\\"" :Z9_ 007 : trueish ""CRC32"" :	msg_type , [
+3
+    ,3 // `tick` ""quote"" 'q'
+,
+00 ,4294967296 ,
+0
+,7 , //
+""x y"",""\" ++ [233]%N ++ runes_of_ascii """
+    //	t
+    ] : metadata ,""a	b""
+//x
+// " ++ [27880; 37322]%N ++ runes_of_ascii "
+:	crc } , }
+")).
+Eval vm_compute in ("<<<M1518>>>" ++ check (runes_of_ascii "
+packet	crc
+
+    {
+    match trueish
+	as
+len
+
+    {
+
+    42
+
+    :
+uint8x
+    , 	 // " ++ [128512]%N ++ runes_of_ascii " emoji
+	""1"" 
+:
+
+    asx , 3
+:
+body[
+
+    ""1""
+	,
+0123456789
+	] :
+u""packet"" 
+:o , } ,}MetaData
+tag
+	{
+    string
+o
+    `line1
+line2`
+    , 
+char[] //
+  Header`{ , }`// c
+    ,uint8x 
+Z9_
+	, }MetaData
+tag
+
+{ i8
+    len,
+	}
+
+options 	 //x
+{ 
+  // `tick` ""quote"" 'q'
+    /// triple
+      x=
+
+10
+
+    ;
+	}
+")).
+Eval vm_compute in ("<<<M1654>>>" ++ check (runes_of_ascii "// packet A { u8 x, }
 MetaData roots {
     char[00] lengthOf ``,
     As stringy,
@@ -653,7 +815,7 @@ MetaData roots {
 
 packet i8i8 {
     crc `crlf
-    line`,
+        line`,
     @rightPad()
     zchar[42] falsey,
     @tag(42)
@@ -666,136 +828,169 @@ packet i8i8 {
         0 : lengthOf,
     },
 }")).
-Eval vm_compute in ("<<<M100>>>" ++ check (runes_of_ascii "
-root packet
-a1
-    {
-tag Pad``
-, } options {
-}
-    root packet int	{
-    uint64 f32a , } packet
-MetaDataX {// c
-@leftPad( ' ' ) /// triple
-repeat uint16 Header	`{ , }`
+Eval vm_compute in ("<<<M285>>>" ++ check (runes_of_ascii "packet zchar { @calculatedFrom(
+    ""packet"" )
+    @lengthOf( body ) @lengthOf(A )
+    repeat /// triple
+u128
+    { f32a
+chars `` , repeat x_y_z `tab	here`	, // c
+} , // " ++ [27880; 37322]%N ++ runes_of_ascii "
+repeat
+Logon {// " ++ [27880; 37322]%N ++ runes_of_ascii "
+u@calculatedFrom( // `tick` ""quote"" 'q'
+""// no comment"") //
+`two words` , char
+    u8x , uint32  uint8x  , } , int8
+    asx ``,}
+")).
+Eval vm_compute in ("<<<M1310>>>" ++ check (runes_of_ascii "
+packet
+A
+	{
+
+u8 a
+	, } packet
+    B 
+{ u16 b
 ,
-// `tick` ""quote"" 'q'
-/// triple
+	} packet
+    C 
+{	u32 
+c,
+
 }
-options {
-Z9_= false
-    falsey //	t
-= ""x y"" ; rootA = false
-    // a // b
-    Foo	=true
-lengthOf
-    = float64 }")).
-Eval vm_compute in ("<<<M1804>>>" ++ check (runes_of_ascii "
+	root
+    packet
 
-  // top
-    options
-    // c0
+    M
+	{u16
 
-{ // c1a
-  // c1b
+    Kc ,
+u16 Kb
+	, u16
+    Ka
 
-FixedStringPadFromLeft 
-        // c2
-      =	// c3
-  true 
-	    // c4
-; // c5a
-// c5b
+,
+match  Kc
 
-	} 
-// c6
-	  root 	 // c7
-packet 
-P
+    as
+X
+	{9
+:A
+
+    ,
+10
+:B  , } ,match	Kb  as
+Y{	2
+: C
+,  1 :A
+
+,
+
+} ,  match	Ka
+    as
+Z {
+1 :
+B	, 
+}, A 
+,B
+, C
+,
+
+    }")).
+Eval vm_compute in ("<<<M1348>>>" ++ check (runes_of_ascii "options {
+    LittleEndian = false;
+    StringPrefixLenType = u16;
+}
+packet Heartbeat {
+    @rightPad('0') char[7] seqNo,
+    uint64 Tail,
+    i16 Flags,
+    u16 msgKind,
+}
+root packet Reject {
+    zchar[3] tag7,
+    repeat Heartbeat,
+    repeat string clOrdID,
+}
+")).
+Eval vm_compute in ("<<<M1313>>>" ++ check (runes_of_ascii "options	{ FixedStringPadChar
+=
+
+'0';  }packet
+Q
+{ zchar[4  ]
+
+z
+	, @rightPad  ('\x00'  )
+
+    char[ 
+3
+]
+n , char[
+    5 ]  d,
+}
+
+    root
+packet
+R
+
 {
 
-// c10
-  char[// c11a
-    // c11b
-    4 // c12a
-	// c12b
-    ]z  // c14
-, 
-    // c15
-  } // c16a
+    Q 
+, zchar[8 
+]top
 
-// c16b
- 
-")).
-Eval vm_compute in ("<<<M1314>>>" ++ check (runes_of_ascii "packet MDSnapshotZZ {
-    u8 a,
-}
-packet OrderACK {
-    u16 b,
-}
-packet HTTPServerInfo {
-    string s,
-}
-root packet FIXMsg {
-    u8 KType,
-    MDSnapshotZZ,
-    repeat OrderACK,
-    match KType as Body {
-        1 : HTTPServerInfo,
-        2 : OrderACK,
-    },
-}
-")).
-Eval vm_compute in ("<<<M1491>>>" ++ check (runes_of_ascii "options {
-    falsey = int64;
-    u8x = uint32
-    uint8x = zchar[1];
-    leftPad = ""a	b"";
-    calculatedFrom = false;
-}
+    ,	repeat zchar[	2
+]
+	zs
 
-MetaData Packet {
-    zchar[7] As,
-}
-
-root packet pack {
-    @leftPad()
-    @tag(7)
-    zchar[3] u @lengthOf(x),
+    , 
 }")).
-Eval vm_compute in ("<<<M207>>>" ++ check (runes_of_ascii "
-MetaData chars { } options
-{ As
-= true ;As // `tick` ""quote"" 'q'
-= false; stringy
-= true} packet repeatCount  {string
-    float@lengthOf(
-    matchKey )
-// packet A { u8 x, }
+Eval vm_compute in ("<<<M10>>>" ++ check (runes_of_ascii "MetaData //	t
+x{
+    } packet rootA
 //x
-`say ""hi""` ,
+//	t
+{ i64	As
+//x
+// @lengthOf(
+@lengthOf(
+    A )
+`// not a comment` ,
 }
+    options { asx =	string ; i8i8 =zchar[
+0123456789 ];	Foo =10 ; As =true
+; }
 ")).
-Eval vm_compute in ("<<<M44>>>" ++ check (runes_of_ascii "
-packet repeatCount
-    {
-trueish , } packet uint8x
-{/// triple
-match u8x as calculatedFrom
-    { [ 4294967296 ]: len ,
-[ """ ++ [128512]%N ++ runes_of_ascii """ ,	""" ++ [233]%N ++ runes_of_ascii "t" ++ [233]%N ++ runes_of_ascii """ , 255 , //
-1
-] : falsey , } , }
+Eval vm_compute in ("<<<M1281>>>" ++ check (runes_of_ascii "// top
+root // c0a
+  // c0b
+packet P {
+    // c3
+u16
+    // c4
+a
+    // c5
+,
+    // c6
+u32 // c7a
+  // c7b
+Sum // c8
+@calculatedFrom( // c9a
+  // c9b
+""CRC32"" ) , } // c13
 ")).
-Eval vm_compute in ("<<<M481>>>" ++ check (runes_of_ascii "packet uint8x
+Eval vm_compute in ("<<<M421>>>" ++ check (runes_of_ascii "packet uint8x
 { match pack
-    as msg_type	{
+    as msg_type msg_type	{
     0123456789 :	float
 }
 ,
 } packet //	t
 a1
-    { } options options {packetx
+    { } options {packetx
     = '\x00'	; u128= ""a	b""  ; }
 ")).
 Eval vm_compute in ("<<<M508>>>" ++ check (runes_of_ascii "packet uint8x
@@ -809,7 +1004,40 @@ a1
     { } options {packetx
     = '\x00'	int16 u128= ""a	b""  ; }
 ")).
-Eval vm_compute in ("<<<M516>>>" ++ check (runes_of_ascii "packet uint8x
+Eval vm_compute in ("<<<M540>>>" ++ check (runes_of_ascii "packet uint8x
+{ match pack
+    as msg_type	{
+    0123456789 :	float
+}
+,
+} packet //	t
+a1
+    { } options " ++ [65279]%N ++ runes_of_ascii " {packetx
+    = '\x00'	; u128= ""a	b""  ; }
+")).
+Eval vm_compute in ("<<<M432>>>" ++ check (runes_of_ascii "packet uint8x
+{ match pack
+    as msg_type	{
+    : 0123456789	float
+}
+,
+} packet //	t
+a1
+    { } options {packetx
+    = '\x00'	; u128= ""a	b""  ; }
+")).
+Eval vm_compute in ("<<<M455>>>" ++ check (runes_of_ascii "packet uint8x
+{ match pack
+    as msg_type	{
+    0123456789 :	float
+}
+,
+ packet //	t
+a1
+    { } options {packetx
+    = '\x00'	; u128= ""a	b""  ; }
+")).
+Eval vm_compute in ("<<<M510>>>" ++ check (runes_of_ascii "packet uint8x
 { match pack
     as msg_type	{
     0123456789 :	float
@@ -818,287 +1046,236 @@ Eval vm_compute in ("<<<M516>>>" ++ check (runes_of_ascii "packet uint8x
 } packet //	t
 a1
     { } options {packetx
-    = '\x00'	; u128= = ""a	b""  ; }
+    = '\x00'	; = ""a	b""  ; }
 ")).
-Eval vm_compute in ("<<<M417>>>" ++ check (runes_of_ascii "packet uint8x
+Eval vm_compute in ("<<<M711>>>" ++ check (runes_of_ascii "// @lengthOf(
+packet i8i8 { u128 o , }
+options { MetaDataX = true;
+    BodyLength =""packet"" x_y_z= 007
+""crc //x
+= ""abc"" ;
+    msg_type =
+i16 }")).
+Eval vm_compute in ("<<<M692>>>" ++ check (runes_of_ascii "// @lengthOf(
+packet i8i8 { u128 o , }
+options { MetaDataX = true;
+    BodyLength =""packet"" x_y_z= 007
+u8 //x
+= ""abc"" ;
+    msg_type =
+i16 }")).
+Eval vm_compute in ("<<<M1383>>>" ++ check (runes_of_ascii "packet Logon {
+    metadata @calculatedFrom(""a\\""),
+    @tag(42)
+    @tag(65535)
+    repeat u16 o `line1
+    line2`,
+}
+
+packet float {
+}")).
+Eval vm_compute in ("<<<M509>>>" ++ check (runes_of_ascii "packet uint8x
 { match pack
-    msg_type as	{
+    as msg_type	{
     0123456789 :	float
 }
 ,
 } packet //	t
 a1
     { } options {packetx
-    = '\x00'	; u128= ""a	b""  ; }
-")).
-Eval vm_compute in ("<<<M435>>>" ++ check (runes_of_ascii "packet uint8x
-{ match pack
-    as msg_type	{
-    0123456789 	float
-}
-,
-} packet //	t
-a1
-    { } options {packetx
-    = '\x00'	; u128= ""a	b""  ; }
-")).
-Eval vm_compute in ("<<<M698>>>" ++ check (runes_of_ascii "// @lengthOf(
+    = '\x00'")).
+Eval vm_compute in ("<<<M680>>>" ++ check (runes_of_ascii "// @lengthOf(
 packet i8i8 { u128 o , }
 options { MetaDataX = true;
     BodyLength =""packet"" x_y_z= 007
 crc //x
-= ""abc"" ;
-    msg_type =
-i16 i16 }")).
-Eval vm_compute in ("<<<M391>>>" ++ check (runes_of_ascii " uint8x
-{ match pack
-    as msg_type	{
-    0123456789 :	float
-}
+= ""abc""")).
+Eval vm_compute in ("<<<M1167>>>" ++ check (runes_of_ascii "MetaData leftPad { chars MetaDataX , } packet repeatCount { char[ 255 ] // c
+uint8x `" ++ [233]%N ++ runes_of_ascii "` , } MetaData pack { As Foo , }")).
+Eval vm_compute in ("<<<M1596>>>" ++ check (runes_of_ascii "
+MetaData
+
+    crc
+{	Pad
+
+    T
 ,
-} packet //	t
-a1
-    { } options {packetx
-    = '\x00'	; u128= ""a	b""  ; }
+zchar[ 0123456789
+	] 
+a1 ,
+
+    int8
+
+trueish // c
+	,  } packet
+float{
+}
 ")).
-Eval vm_compute in ("<<<M1461>>>" ++ check (runes_of_ascii "packet A {
+Eval vm_compute in ("<<<M973>>>" ++ check (runes_of_ascii "packet A {
+    match k as n {
+        ""\
+"" : B,
+        [""\
+"", 1] : C,
+        [1,2,3,4,5,""\
+""] : D,
+    },
+}")).
+Eval vm_compute in ("<<<M1285>>>" ++ check (runes_of_ascii "// top
+root
+    // c0
+packet // c1a
+  // c1b
+P
+    // c2
+{ // c3
+string s // c5a
+  // c5b
+,
+    // c6
+} ")).
+Eval vm_compute in ("<<<M956>>>" ++ check (runes_of_ascii "packet A {
     Inner {
-        u8 x `a
-                b`,
+        u8 x `
+x`,
         Deep {
-            u8 y `a
-                        b`,
+            u8 y `
+x`,
         },
     },
 }")).
-Eval vm_compute in ("<<<M1790>>>" ++ check (runes_of_ascii "packet
-	A
-
-    {  match
-
-    k as
-
-n{ [
-""a""
-
-,
-""bb""
-    , 007 ,
-""d""
-,
-
-""e"" ,
-	66
-
-    ,
-    ""g"", ""h"" 
-,  9 ] 
-: 
-B 
-2: C
-    } , }
+Eval vm_compute in ("<<<M568>>>" ++ check (runes_of_ascii "
+packet
+    asx {match match u128 as lengthOf
+{
+//	t
+// `tick` ""quote"" 'q'
+255 : x ,
+    } ,	}")).
+Eval vm_compute in ("<<<M892>>>" ++ check (runes_of_ascii "packet A {
+  match k as n {
+    [1, 22, 007, 4, 5, 66, 7, 8, 9, 10, 11] : B
+    2 : C
+  },
+}")).
+Eval vm_compute in ("<<<M873>>>" ++ check (runes_of_ascii "packet A {
+  match k as n {
+    [1, 22, ""c c"", 4, 5, ""f"", 7, 8, ""i""] : B,
+    2 : C
+  },
+}")).
+Eval vm_compute in ("<<<M617>>>" ++ check (runes_of_ascii "
+packet
+    asx {match u128 as lengthOf
+{
+//	t
+// `tick` ""quote"" 'q'
+255 : x ,
+    } 	}")).
+Eval vm_compute in ("<<<M1246>>>" ++ check (runes_of_ascii "options {
+    LittleEndian = true;
+}
+root packet P {
+    repeat char cs,
+    u8 x,
+}
 ")).
-Eval vm_compute in ("<<<M1387>>>" ++ check (runes_of_ascii "packet A {
+Eval vm_compute in ("<<<M582>>>" ++ check (runes_of_ascii "
+packet
+    asx {match u128 as 
+{
+//	t
+// `tick` ""quote"" 'q'
+255 : x ,
+    } ,	}")).
+Eval vm_compute in ("<<<M1747>>>" ++ check (runes_of_ascii "packet
+    A
+{
+
+    match
+k
+
+as
+n{[""a"",  22,	""c c""
+	]
+
+:
+
+B,2
+	: C
+	} ,}
+")).
+Eval vm_compute in ("<<<M1659>>>" ++ check (runes_of_ascii "packet Inner {
     u8 a,
 }
 
-packet B {
-    u16 b,
-}
-
 root packet P {
-    u8 K,
-    match K as M {
-        1 : A,
-        1 : B,
+    Inner ref_obj,
+    u8 x,
+}")).
+Eval vm_compute in ("<<<M793>>>" ++ check (runes_of_ascii "packet A {
+  match k as n {
+    [""a"", 22, ""c c""] : B,
+    2 : C
+  },
+}")).
+Eval vm_compute in ("<<<M1715>>>" ++ check (runes_of_ascii "packet A {
+    @tag(1)
+    @leftPad('0')
+    // b
+    char[4] x,
+}")).
+Eval vm_compute in ("<<<M151>>>" ++ check (runes_of_ascii "packet
+    stringy
+{ } MetaData crc
+/// triple
+//x
+{ u16 o ,}")).
+Eval vm_compute in ("<<<M1097>>>" ++ check (runes_of_ascii "packet A {
+    match k as n {
+        1 : B,// c
     },
 }")).
-Eval vm_compute in ("<<<M504>>>" ++ check (runes_of_ascii "packet uint8x
-{ match pack
-    as msg_type	{
-    0123456789 :	float
-}
-,
-} packet //	t
-a1
-    { } options {packetx
-    =")).
-Eval vm_compute in ("<<<M1151>>>" ++ check (runes_of_ascii "MetaData leftPad { chars MetaDataX // c
-, } packet repeatCount { char[ 255 ] uint8x `" ++ [233]%N ++ runes_of_ascii "` , } MetaData pack { As Foo , }")).
-Eval vm_compute in ("<<<M1183>>>" ++ check (runes_of_ascii "MetaData leftPad { chars MetaDataX , } packet repeatCount { char[ 255 ] uint8x `" ++ [233]%N ++ runes_of_ascii "` , } MetaData pack { As // c
-Foo , }")).
-Eval vm_compute in ("<<<M1539>>>" ++ check (runes_of_ascii "packet
-A
-{ match k
-as n
-	{ [1
-
-, 22
-, 007  ,4
-,
-	5
-
-    ,  66
-	,
-7 ,
-8,9
-	] :
-B
-
-,
-
-2
-
-: 
-C}
-
-    , }
+Eval vm_compute in ("<<<M1201>>>" ++ check (runes_of_ascii "packet body // c
+{ i32 f32a `{ , }` , } options { }")).
+Eval vm_compute in ("<<<M1100>>>" ++ check (runes_of_ascii "// top
+MetaData // c0
+tag // c1
+{ // c2
+} // c3
 ")).
-Eval vm_compute in ("<<<M1511>>>" ++ check (runes_of_ascii "packet u128 {
-    @calculatedFrom(""x y"")
-    @rightPad(' ')
-    char[42] Header @calculatedFrom(""abc""),
-}")).
-Eval vm_compute in ("<<<M484>>>" ++ check (runes_of_ascii "packet uint8x
-{ match pack
-    as msg_type	{
-    0123456789 :	float
-}
-,
-} packet //	t
-a1
-    { }")).
-Eval vm_compute in ("<<<M1592>>>" ++ check (runes_of_ascii "packet
-A {
-
-match
-	k
-
-as  n
-	{[ 
-1  , 
-22
-,
-    ""c c""
-, 4 ,
-    5
-] :
-B,
-	2
-	:  C
-    }
-	,}
-
-")).
-Eval vm_compute in ("<<<M717>>>" ++ check (runes_of_ascii "// @lengthOf(
-packet i8i8 { u128 o , }
-options { MetaDataX = true;
-    BodyLength =""packet"" ")).
-Eval vm_compute in ("<<<M637>>>" ++ check (runes_of_ascii "
-~packet
-    asx {match u128 as lengthOf
-{
-//	t
-// `tick` ""quote"" 'q'
-255 : x ,
-    } ,	}")).
-Eval vm_compute in ("<<<M602>>>" ++ check (runes_of_ascii "
+Eval vm_compute in ("<<<M596>>>" ++ check (runes_of_ascii "
 packet
     asx {match u128 as lengthOf
-{
-//	t
-// `tick` ""quote"" 'q'
-255 :  ,
-    } ,	}")).
-Eval vm_compute in ("<<<M572>>>" ++ check (runes_of_ascii "
-packet
-    asx {match  as lengthOf
-{
-//	t
-// `tick` ""quote"" 'q'
-255 : x ,
-    } ,	}")).
-Eval vm_compute in ("<<<M852>>>" ++ check (runes_of_ascii "packet A {
-  match k as n {
-    [1, 22, 007, 4, 5, 66, 7, 8] : B,
-    2 : C
-  },
-}")).
-Eval vm_compute in ("<<<M1251>>>" ++ check (runes_of_ascii "packet
-Inner
-	{u8	a 
-,
-} root
-	packet 
-P
-{ Inner	ref_obj,  u8	x
-,
+{")).
+Eval vm_compute in ("<<<M1067>>>" ++ check (runes_of_ascii "packet A {    u8 x, // c    u8 y,}")).
+Eval vm_compute in ("<<<M1562>>>" ++ check (runes_of_ascii "
 
-    }
-
+  options{
+Packet
+=
+	char[]}
 ")).
-Eval vm_compute in ("<<<M1932>>>" ++ check (runes_of_ascii "packet roots {
-}
-
-MetaData metadata {
-    asx matchKey,
-    uint64 rootA,
+Eval vm_compute in ("<<<M998>>>" ++ check (runes_of_ascii "packet A {
+ u8 x `d" ++ [5760]%N ++ runes_of_ascii "`, // c" ++ [5760]%N ++ runes_of_ascii "
 }")).
-Eval vm_compute in ("<<<M877>>>" ++ check (runes_of_ascii "packet A { Inner { match k as n { [1,22,007,4,5,66,7,8,9] : B, }, }, }")).
-Eval vm_compute in ("<<<M1290>>>" ++ check (runes_of_ascii "root packet P {
-    u8 s_u8,
-    repeat u8 r_u8,
-    u16 b_len,
-}
-")).
-Eval vm_compute in ("<<<M1842>>>" ++ check (runes_of_ascii "//	t
-options {
-    roots = ""\n"";
-    o = '0';
-    tag = true
-}")).
-Eval vm_compute in ("<<<M776>>>" ++ check (runes_of_ascii "packet A {
-  match k as n {
-    [""a""] : B
-    2 : C
-  },
-}")).
-Eval vm_compute in ("<<<M1220>>>" ++ check (runes_of_ascii "packet body { i32 f32a `{ , }` , } options { }
-// c
-")).
-Eval vm_compute in ("<<<M1393>>>" ++ check (runes_of_ascii "packet body {
-    i32 f32a `{ , }`,
-}
-
-options {
-}")).
-Eval vm_compute in ("<<<M755>>>" ++ check (runes_of_ascii "string i8 ) } u8 [ uint32 ] } = uint8 '\x00'")).
-Eval vm_compute in ("<<<M591>>>" ++ check (runes_of_ascii "
-packet
-    asx {match u128 as lengthOf")).
-Eval vm_compute in ("<<<M1481>>>" ++ check (runes_of_ascii "packet A {
+Eval vm_compute in ("<<<M953>>>" ++ check (runes_of_ascii "packet A {
     u8 x `
-        `,
+x`,
 }")).
-Eval vm_compute in ("<<<M586>>>" ++ check (runes_of_ascii "
+Eval vm_compute in ("<<<M576>>>" ++ check (runes_of_ascii "
 packet
-    asx {match u128 as")).
-Eval vm_compute in ("<<<M381>>>" ++ check (runes_of_ascii "options{
-int
-=char[] ; }
-//
-")).
-Eval vm_compute in ("<<<M1923>>>" ++ check (runes_of_ascii "
-// c x
-  packet A{ } ")).
-Eval vm_compute in ("<<<M1109>>>" ++ check (runes_of_ascii "MetaData tag { // c
-}")).
-Eval vm_compute in ("<<<M112>>>" ++ check (runes_of_ascii "packet falsey { }
-")).
-Eval vm_compute in ("<<<M1051>>>" ++ check (runes_of_ascii "packet A {
+    asx {match")).
+Eval vm_compute in ("<<<M115>>>" ++ check (runes_of_ascii "MetaData roots{ } 	 ")).
+Eval vm_compute in ("<<<M986>>>" ++ check (runes_of_ascii "packet A {
 }
-// c" ++ [65279]%N)).
-Eval vm_compute in ("<<<M1054>>>" ++ check (runes_of_ascii "packet A {
-}// c" ++ [6158]%N)).
-Eval vm_compute in ("<<<M404>>>" ++ check (runes_of_ascii "packet uint8x")).
+// c" ++ [160]%N)).
+Eval vm_compute in ("<<<M1225>>>" ++ check (runes_of_ascii "
+// c
+packet x { }")).
+Eval vm_compute in ("<<<M1230>>>" ++ check (runes_of_ascii "packet x { // c
+}")).
+Eval vm_compute in ("<<<M376>>>" ++ check (runes_of_ascii "
+// " ++ [128512]%N ++ runes_of_ascii " emoji
+")).
 Eval vm_compute in ("<<<M1025>>>" ++ check (runes_of_ascii "// c" ++ [8287]%N)).
